@@ -21,6 +21,22 @@ COMMON_ASSUMPTIONS = [
 
 PROPS = {
     "S00": {"quick_runs": 2000, "thorough_runs": 20000, "seed": 100001},
+    "C02": {
+        "quick_runs": 8000, "thorough_runs": 500000, "seed": 2000001,
+        "rule": "C02 programs: 1-8 independent waiter/waker pairs over raw agent suspend/resume, condition_variable, semaphore, "
+                "latch, event, thread::join, pika::mutex hand-off and sync_wait from an OS thread; the waiter publishes 'registered' "
+                "(under the facility's lock where there is one), the waker (task or OS thread) wakes only afterwards; focus "
+                "strategy on do_yield/do_resume/set_thread_state/set_active_state/scheduling_loop.",
+        "required_probes": ["mech0", "mech1", "mech5", "mech6"],
+    },
+    "C13": {
+        "quick_runs": 6000, "thorough_runs": 400000, "seed": 13000001,
+        "kf_subs": {"kf_shared_priority": 32, "kf_yield_noexcept": 16},
+        "rule": "C13 programs: 1-7 threads with bodies {return, yield k, block, spawn+join child, interruptible loop, stop-token "
+                "loop} x controls {join, detach, interrupt+join, ~jthread, request_stop+join, double join, self join, move+join} "
+                "with drawn delays so that termination and join/interrupt race; all policies except shared-priority (known finding).",
+        "required_probes": ["join.target_already_done", "join.target_running", "interrupted", "stop_observed", "double_join", "self_join", "detach"],
+    },
     "C06": {
         "quick_runs": 6000, "thorough_runs": 400000, "seed": 6000001,
         "rule": "C06 programs: 2-8 parties x lock/try_lock/try_lock_for/try_lock_until sections (yields, sleeps and migrations "
